@@ -210,8 +210,61 @@ fn sanitize(s: &str) -> String {
         .collect()
 }
 
+/// The same check once more in the build with the `chrono` feature (the typed layer's timestamps are a different
+/// type there): `/verif/check` builds that binary for the checks that ask for it and names it in
+/// VERIF_CHRONO_BIN. The child runs the whole enumeration with VERIF_CHILD_PASS set, writes no evidence and
+/// prints one JSON line; its violations are merged into the parent's (their cases carry `"feature": "chrono"`,
+/// which makes `--replay` pick the chrono binary).
+pub fn second_build_pass(ctx: &Ctx, cov: &mut Coverage, violations: &mut Violations) {
+    if cfg!(feature = "chrono") || std::env::var_os("VERIF_CHILD_PASS").is_some() {
+        return;
+    }
+    let Ok(bin) = std::env::var("VERIF_CHRONO_BIN") else {
+        cov.set("chrono_build", json!("not run (VERIF_CHRONO_BIN not set; /verif/check sets it)"));
+        return;
+    };
+    let out = std::process::Command::new(&bin).arg(ctx.id).arg(ctx.tier.as_str()).env("VERIF_CHILD_PASS", "1").output();
+    let out = match out {
+        Ok(o) if o.status.success() => o,
+        other => machinery_error(&format!("{}: the chrono build {bin} did not run: {:?}", ctx.id, other.map(|o| (o.status, String::from_utf8_lossy(&o.stderr).chars().take(400).collect::<String>())))),
+    };
+    let text = String::from_utf8_lossy(&out.stdout);
+    let line = text.lines().rev().find(|l| l.starts_with("{\"child_pass\"")).unwrap_or("{}");
+    let v: Value = serde_json::from_str(line).unwrap_or_else(|e| machinery_error(&format!("{}: the chrono pass printed no JSON: {e}", ctx.id)));
+    if v["feature"].as_str() != Some("chrono") {
+        machinery_error(&format!("{}: VERIF_CHRONO_BIN is not a chrono build", ctx.id));
+    }
+    let evals = v["evaluations"].as_u64().unwrap_or(0);
+    if evals == 0 {
+        machinery_error(&format!("{}: the chrono pass evaluated nothing", ctx.id));
+    }
+    cov.evaluations += evals;
+    cov.transitions += v["transitions"].as_u64().unwrap_or(0);
+    cov.set("chrono_build", json!({"evaluations": evals, "violations": v["violations"].as_array().map(|a| a.len()).unwrap_or(0)}));
+    for x in v["violations"].as_array().cloned().unwrap_or_default() {
+        let n = x["count"].as_u64().unwrap_or(1);
+        let mut case = x["case"].clone();
+        if let Some(o) = case.as_object_mut() {
+            o.insert("feature".into(), json!("chrono"));
+        } else {
+            case = json!({"feature": "chrono", "case": case});
+        }
+        let viol = Violation::new(x["sig"].as_str().unwrap_or("panic"), format!("[chrono build] {}", x["what"].as_str().unwrap_or("")), case);
+        let e = violations.by_sig.entry(viol.sig.clone()).or_insert((0, Vec::new()));
+        e.0 += n;
+        if e.1.len() < KEEP_PER_SIG {
+            e.1.push(viol);
+        }
+    }
+}
+
 /// Writes replay files + evidence, prints the verdict lines, returns the process exit code.
 pub fn finish(ctx: &Ctx, cov: Coverage, violations: Violations) -> i32 {
+    if std::env::var_os("VERIF_CHILD_PASS").is_some() {
+        let list: Vec<Value> = violations.by_sig.iter().map(|(sig, (n, ex))| json!({"sig": sig, "count": n, "what": ex.first().map(|v| v.what.clone()).unwrap_or_default(), "case": ex.first().map(|v| v.case.clone()).unwrap_or(Value::Null)})).collect();
+        println!("{}", json!({"child_pass": true, "feature": if cfg!(feature = "chrono") { "chrono" } else { "default" }, "evaluations": cov.evaluations, "transitions": cov.transitions, "violations": list}));
+        return 0;
+    }
     let findings = load_findings();
     let known: BTreeMap<&str, &FindingEntry> = findings
         .iter()
